@@ -122,14 +122,14 @@ def r22(chk, m):
             if fname == 'expandDef' and len(args) == 2:
                 state.env['__params'] = args[1]
                 return []
-            return None
+            return TokenStreamHooks.call(self, interp, node, fname, args, kwargs, state)      # (the stream as a value: tex.itertokens())
     for label, pattern, stream, want in cases:
         h = H2(m, Definition, stream, stream)
         h.keep = lambda ev: False
         h.should_inline = A.private_only
         it = A.Interp(model=m, scope=fn, hooks=h, max_iter=len(pattern) + len(stream) + 2, exc_edges=False, inline=3, heap=True, precise_exc=True)
         outs = it.run_function(fn, env={'self': A.Obj('definition', {'args': list(pattern), 'definition': [x]}, cls=Definition),
-                                        'tex': A.Obj('tex', {'readArgument': A.Sym('extfunc:tex.readArgument', truthy=True)})})
+                                        'tex': A.Obj('tex', {'readArgument': A.Sym('extfunc:tex.readArgument', truthy=True), 'itertokens': A.Sym('extfunc:tex.itertokens', truthy=True)})})
         chk.paths += len(outs)
         got = set()
         for kind, s2, v in outs:
@@ -169,7 +169,7 @@ def r23(chk, m, rule_id='R2.3'):
         it = A.Interp(model=m, scope=fn, hooks=h, max_iter=6, exc_edges=False, inline=3, heap=True, precise_exc=True)
         # `tex` is a scripted object: its readArgument is answered by the hooks however the call is spelled (directly, through a list
         # of readers, through functools.partial)
-        tex = A.Obj('tex', {'readArgument': A.Sym('extfunc:tex.readArgument', truthy=True)})
+        tex = A.Obj('tex', {'readArgument': A.Sym('extfunc:tex.readArgument', truthy=True), 'itertokens': A.Sym('extfunc:tex.itertokens', truthy=True)})
         try:
             me = A.Obj('newcommand', {'opt': opt, 'nargs': 3, 'macroMode': m.class_const(Macro, 'MODE_NONE'), 'definition': []}, cls=NewCommand)
             outs = it.run_function(fn, env={'self': me, 'tex': tex})
@@ -271,7 +271,7 @@ def r25(chk, m):
     hk.should_inline = A.private_only
     it = A.Interp(model=m, scope=inv, hooks=hk, max_iter=len(stored_text) + len(stream) + 2, exc_edges=False, inline=3, heap=True, precise_exc=True)
     try:
-        outs = it.run_function(inv, env={'self.args': list(stored_text), 'self.definition': [x], 'tex': A.Obj('tex', {'readArgument': A.Sym('extfunc:tex.readArgument', truthy=True)})})
+        outs = it.run_function(inv, env={'self': A.Obj('definition', {'args': list(stored_text), 'definition': [x]}, cls=Definition), 'tex': A.Obj('tex', {'readArgument': A.Sym('extfunc:tex.readArgument', truthy=True), 'itertokens': A.Sym('extfunc:tex.itertokens', truthy=True)})})
     except AnalysisError as e:
         chk.undecided(R, 'hashbrace', str(e), chk.where(inv))
         return
